@@ -117,6 +117,12 @@ Inductive fcode :=
 | FNotFound            (* Client.ResourceNotFound *)
 | FServer.             (* Server: an exception inside process_request *)
 
+(** how Soap11.deserialize matches a header block to a declared header class: by '{namespace}type_name'
+    (the generated flag; matching by the local name alone would confuse same-named blocks of other namespaces) *)
+Definition hdr_match (ns name : text) (e : xnode) : bool :=
+  if xw_hdr_qualified then is_elt ns name e
+  else match e with XElt _ m _ _ _ => text_eqb m name | XOther => false end.
+
 (** _from_soap: (children of the first Header, first child of the first Body) *)
 Definition from_soap (P : proto) (doc : xnode) : fcode + (option (list xnode) * option xnode) :=
   if negb (is_elt (env_ns P) t_Envelope doc) then inl FSoapError
@@ -194,7 +200,7 @@ Section Pipeline.
   Fixpoint last_elt (ns name : text) (l : list xnode) (acc : option xnode) : option xnode :=
     match l with
     | [] => acc
-    | e :: r => last_elt ns name r (if is_elt ns name e then Some e else acc)
+    | e :: r => last_elt ns name r (if hdr_match ns name e then Some e else acc)
     end.
   Fixpoint dec_headers (classes : list cid) (hdoc : list xnode) : out (list val) :=
     match classes with
